@@ -249,6 +249,7 @@ func (c *Channel) Invoke(ctx context.Context, method string, req, resp interface
 		}()
 		ctx := grpc.NewContextWithServerTransportStream(makeServerContext(ctx), &sts)
 		v, err := md.Handler(handler, ctx, codec, c.unaryInterceptor)
+		err = internal.HandlerError(err)
 		if h := sts.GetHeaders(); len(h) > 0 {
 			_ = writeMessage(ctx, nil, ch, frame{headers: h})
 		}
@@ -511,6 +512,7 @@ func (s *inProcessServerStream) sendHeadersLocked() error {
 }
 
 func (s *inProcessServerStream) finish(err error) {
+	err = internal.HandlerError(err)
 	s.onDone()
 
 	s.mu.Lock()
